@@ -97,6 +97,10 @@ class Library:
 
     # ---- operators ---------------------------------------------------------------
     def binop(self, ex, op, a, b, node):
+        if hasattr(a, "pyvc_binop"):      # duck protocol for contract-level values
+            return a.pyvc_binop(ex, op, b, False)
+        if hasattr(b, "pyvc_binop"):
+            return b.pyvc_binop(ex, op, a, True)
         if ex.opts.get("leaf_binop") is not None and ((is_sym(a) and a.sort() == Leaf) or (is_sym(b) and b.sort() == Leaf)):
             r = ex.opts["leaf_binop"](ex, op, a, b)
             if r is not None:
